@@ -3,7 +3,7 @@ import vlib, mirrorcheck
 
 META = {
     "level": "model_checking",
-    "text": "Mirror.tla carries every signature entry with its authenticity class; TLC checks that a vote message without any authentic entry changes no view and no store and is not reported accepted (C05_Inert) over every corruption class (bit flip, other key, other kind/round/target/height, out-of-range and malformed key ids, unknown block hash, wrong validator-set hash) for voting, next-round, committing and future rounds; the behaviours are replayed on a real Mirror with real signatures and an oracle re-verifies EVERY signature held in the three views, the previous-commit proofs, the round store, committed-header proofs and every NetworkViewUpdate handed to gossip against the validator set the chain prescribes, and checks inertness on the real views/stores.",
+    "text": "Mirror.tla carries every signature entry with its authenticity class; TLC checks that a vote message without any authentic entry changes no view and no store and is not reported accepted (C05_Inert) over every corruption class (bit flip, other key, other kind/round/target/height, out-of-range and malformed key ids, unknown block hash, wrong validator-set hash) for voting, next-round, committing and future rounds; the behaviours are replayed on a real Mirror with real signatures and an oracle re-verifies EVERY signature held in the three views, the previous-commit proofs, the round store, committed-header proofs and every NetworkViewUpdate handed to gossip against the validator set the chain prescribes, and checks inertness on the real views/stores. Generation additionally: the concurrent-caller driver (MirrorConcMC.tla) replayed with the verifGate hook, validator sets already known to the validator store with future-round votes claimed for them, another validator's authentic signature re-filed under a different key id; the repository's own tests run under the invariant monitor (every signature of every view re-verified).",
     "note": "Bounded as C01. Trusted: TLC, the oracle's own verification (gcrypto.PubKey.Verify over SimpleSignatureScheme sign bytes with the harness's key table).",
     "technique": "TLA+ spec (Mirror.tla) + TLC exhaustive bounded check over corruption classes + replay on the real Mirror with independent signature re-verification of all views, stores and gossip output",
 }
